@@ -75,3 +75,25 @@ Definition sched_ik_kinds : list action :=
   [AStart 0 rq_pay_k; AResume 0; AResume 0; AResume 0; AResume 0; AResume 0; AResume 0; AResume 0; AResume 0;
    AResume 0; AResume 0; APersistOk; AResume 0; AResume 0; AResume 0;
    AStart 1 rq_meta_k; AResume 1; AResume 1].
+
+(* ---- cancellation of a request that waits for its account locks (Properties/C06.v, C06_cancel_example) ------- *)
+(* request 0 funds account 1 with 100 and is acknowledged; request 1 (1 -> 2, 100) takes the locks of accounts 1, 2;
+   request 2 (1 -> 3, 100, idempotency key 7, reference 9) reserves its key and reference and queues behind it *)
+Definition rq_c (ik ref : N) (ps : list posting) : request :=
+  {| rq_kind := KCreate; rq_ik := ik; rq_ref := ref; rq_dry := false; rq_postings := ps;
+     rq_unb := false; rq_revert := 0; rq_target_tx := None |}.
+Definition sched_queued : list action :=
+  [AStart 0 (rq_c 0 0 [(world, 1%N, 100%Z)])] ++ repeat (AResume 0) 8 ++ [APersistOk] ++ repeat (AResume 0) 3 ++
+  [AStart 1 (rq_c 0 0 [(1%N, 2%N, 100%Z)]); AStart 2 (rq_c 7 9 [(1%N, 3%N, 100%Z)]); AResume 1] ++
+  repeat (AResume 2) 5.
+(* (i) 2 is cancelled and gives up while 1 still holds the locks (it leaves the queue); 1 then completes *)
+Definition sched_cancel : list action :=
+  sched_queued ++ [ACancel 2; AResumeCancelled 2] ++ repeat (AResume 1) 6 ++ [APersistOk] ++ repeat (AResume 1) 4.
+(* (ii) 2 is cancelled, 1 completes its write and releases the locks, which GRANTS them to 2; 2 then takes the
+   ctx.Done() branch all the same: it gives the grant back. Request 3 (world -> 3) then uses key 7 and reference 9
+   again and is acknowledged: the reservations of 2 were released *)
+Definition sched_cancel_granted : list action :=
+  sched_queued ++ [ACancel 2] ++ repeat (AResume 1) 6 ++ [APersistOk] ++ repeat (AResume 1) 3.
+Definition sched_cancel_reuse : list action :=
+  sched_cancel_granted ++ [AResumeCancelled 2; AResume 1; AStart 3 (rq_c 7 9 [(world, 3%N, 5%Z)])] ++
+  repeat (AResume 3) 12 ++ [APersistOk] ++ repeat (AResume 3) 3.
